@@ -325,6 +325,11 @@ def run(ctx, V):
         inside = TT.contains_margin(corners_f(tile), (lon, lat)) >= -1e-9
         if inside:
             worst_px[(pl, q)] = max(worst_px[(pl, q)], e if math.isfinite(e) else 1e30)
+        else:
+            # the tile handed back by the PIXEL lookup must itself contain the point (it is the result of
+            # the tile lookup in the requested coordinate system; seeded change C04-n dropped the system)
+            fails.append((f"toast_pixel_for_point returned tile {tuple(tile.pos)}, which does not contain the point", case,
+                          KEY_F4 if pl else None))
         if not (e <= 2.0):
             branch = float(np.abs(lons - (lon % (2 * math.pi))).max()) > math.pi
             key = KEY_F4 if (pl and not inside) else (KEY_F5 if branch else None)
